@@ -6,6 +6,7 @@ import (
 	"fmt"
 	"io"
 	"math/rand"
+	"net/http"
 	"reflect"
 	"strings"
 	"sync"
@@ -279,7 +280,7 @@ func sameIface(a, b interface{}) bool {
 
 func checkC16(e *core.Env) {
 	curEnv = e
-	e.SetRule("random service descriptors (0..3 unary, 0..3 stream methods, all flag mixes) decorated 0..3 times (InterceptServer directly or through WithInterceptor) with every nil/non-nil unary/stream combination, plus a transport-level interceptor pair, behaviours {pass, short-circuit, fail, rewrite} at one layer; every method is called on carriers {direct handler call, HandlerMap via WithInterceptor, in-process channel, HTTP server}; oracle: ordered enter/exit/handler log vs the trace computed from the configuration, info fields, pass-through identity, descriptor snapshot before/after; distinct = distinct configurations")
+	e.SetRule("random service descriptors (0..3 unary, 0..3 stream methods, all flag mixes) decorated 0..3 times (InterceptServer directly or through WithInterceptor) with every nil/non-nil unary/stream combination, plus a transport-level interceptor pair, behaviours {pass, short-circuit, fail, rewrite} at one layer; every method is called on carriers {direct handler call, HandlerMap via WithInterceptor, in-process channel, HTTP server or HandleServices mux mounted at /, /api/v1 or /x/}; second phase: chains of 1..4 nested WithInterceptor views with services registered through every level before and after outer views are created, each method run directly and the interceptors entered compared with those of the views below the registration level; oracle: ordered enter/exit/handler log vs the trace computed from the configuration, info fields, pass-through identity, descriptor snapshot before/after; distinct = distinct configurations")
 	n := e.N(1500, 25000)
 	e.Cases("cfg", n, func(i int, r *rand.Rand) {
 		log := &c16log{}
@@ -369,9 +370,20 @@ func checkC16(e *core.Env) {
 			ch.RegisterService(final, svc)
 			cc = ch
 		case "http":
-			s := httpgrpc.NewServer(httpgrpc.WithServerUnaryInterceptor(tu), httpgrpc.WithServerStreamInterceptor(ts))
-			s.RegisterService(final, svc)
-			c := httpCarrier("http", nil, s, "/", false, false)
+			// mounted at the root or below it: the interceptors are told the method name, not the URL path
+			base := pick(r, "/", "/", "/api/v1", "/x/")
+			var c *Carrier
+			if r.Intn(2) == 0 {
+				s := httpgrpc.NewServer(httpgrpc.WithBasePath(base), httpgrpc.WithServerUnaryInterceptor(tu), httpgrpc.WithServerStreamInterceptor(ts))
+				s.RegisterService(final, svc)
+				c = httpCarrier("http", nil, s, base, false, false)
+			} else {
+				mreg := grpchan.HandlerMap{}
+				mreg.RegisterService(final, svc)
+				mux := http.NewServeMux()
+				httpgrpc.HandleServices(mux.HandleFunc, base, mreg, tu, ts)
+				c = httpCarrier("http", nil, mux, base, false, false)
+			}
 			cc, closeFn = c.CC, c.Close
 		}
 		if closeFn != nil {
@@ -683,4 +695,109 @@ func checkC16(e *core.Env) {
 		}
 	})
 	_ = errors.New
+
+	// nested registry views: decorating a view must not change what the view itself (or any view below it) does
+	e.Cases("views", e.N(1500, 25000), func(i int, r *rand.Rand) {
+		log := &c16log{}
+		var seen []observed
+		hm := grpchan.HandlerMap{}
+		depth := 1 + r.Intn(4)
+		views := []grpchan.ServiceRegistry{hm}
+		var layers []c16Layer
+		type regd struct {
+			desc  *grpc.ServiceDesc
+			level int
+			svc   *c16Svc
+		}
+		var regs []regd
+		var trace []string
+		register := func() {
+			level := r.Intn(len(views))
+			d := c16Desc(r, fmt.Sprintf("c16.V%d", len(regs)))
+			sv := &c16Svc{log: log}
+			views[level].RegisterService(d, sv)
+			regs = append(regs, regd{d, level, sv})
+			trace = append(trace, fmt.Sprintf("register %s through view %d", d.ServiceName, level))
+		}
+		for k := 0; k < depth; k++ {
+			for r.Intn(3) == 0 {
+				register()
+			}
+			l := c16Layer{name: fmt.Sprintf("L%d", k), unary: r.Intn(2) == 0, stream: r.Intn(2) == 0, beh: bPass}
+			layers = append(layers, l)
+			views = append(views, grpchan.WithInterceptor(views[k], l.unaryInt(log, &seen), l.streamInt(log, &seen)))
+			trace = append(trace, fmt.Sprintf("view %d = WithInterceptor(view %d, unary=%v, stream=%v)", k+1, k, l.unary, l.stream))
+		}
+		for n := 1 + r.Intn(4); n > 0; n-- {
+			register()
+		}
+		cfg := strings.Join(trace, "; ")
+		e.Note("%s", cfg)
+		entered := func(evs []string) string {
+			var names []string
+			for _, ev := range evs {
+				if f := strings.Fields(ev); len(f) >= 2 && f[0] == "enter" {
+					names = append(names, f[1])
+				}
+			}
+			return strings.Join(names, ",")
+		}
+		for _, rg := range regs {
+			fd, h := hm.QueryService(rg.desc.ServiceName)
+			if fd == nil || h != interface{}(rg.svc) {
+				e.Violate("interceptors/views/registry-lost", "service registered through a view is not in the underlying registry ["+cfg+"]", trace)
+				return
+			}
+			want := func(stream bool) string {
+				var names []string
+				for k := 0; k < rg.level; k++ { // the view nearest the registry decorates last, so it runs first
+					if (stream && layers[k].stream) || (!stream && layers[k].unary) {
+						names = append(names, layers[k].name)
+					}
+				}
+				return strings.Join(names, ",")
+			}
+			for mi := range fd.Methods {
+				log.take()
+				seen = nil
+				if pan := guard(func() {
+					fd.Methods[mi].Handler(rg.svc, context.Background(), func(interface{}) error { return nil }, nil)
+				}); pan != "" {
+					e.Violate("interceptors/views/panic", pan+" ["+cfg+"]", trace)
+					return
+				}
+				e.Count("rpcs", 1)
+				if got := entered(log.take()); got != want(false) {
+					e.Violate("interceptors/views/unary", fmt.Sprintf("%s (registered through view %d): unary interceptors run: [%s], applicable: [%s] [%s]", rg.desc.ServiceName, rg.level, got, want(false), cfg), trace)
+					return
+				}
+			}
+			for si := range fd.Streams {
+				log.take()
+				seen = nil
+				if pan := guard(func() {
+					fd.Streams[si].Handler(rg.svc, &fakeServerStream{ctx: context.Background(), in: []*tpb.Message{{}}})
+				}); pan != "" {
+					e.Violate("interceptors/views/panic", pan+" ["+cfg+"]", trace)
+					return
+				}
+				e.Count("rpcs", 1)
+				if got := entered(log.take()); got != want(true) {
+					e.Violate("interceptors/views/stream", fmt.Sprintf("%s (registered through view %d): stream interceptors run: [%s], applicable: [%s] [%s]", rg.desc.ServiceName, rg.level, got, want(true), cfg), trace)
+					return
+				}
+			}
+		}
+		var shape []string
+		for _, l := range layers {
+			shape = append(shape, fmt.Sprintf("%v%v", l.unary, l.stream))
+		}
+		for _, rg := range regs {
+			shape = append(shape, fmt.Sprint(rg.level))
+		}
+		e.Eval("views|"+strings.Join(shape, ","), true)
+		if i < 2 {
+			e.Sample(map[string]any{"views": trace})
+		}
+	})
 }
